@@ -102,12 +102,15 @@ func init() {
 	// strings and names that END in a backslash or a quote (the closing quote follows an escape)
 	strPool = append(strPool, "C:\\tmp\\", "\\", "x\\\\", "say \"hi\"", "\"")
 	namePool = append(namePool, "dir\\", "q\"", "\\")
+	// member names that look like numbers to a lenient parser (bases, separators, signs, exponents)
+	namePool = append(namePool, "0x1f", "0b101", "0o17", "1_000", "1e3", "+5", "007", "0X1F", " 1", "1 ", "١")
 	namePool = append(namePool, "\xff\xff\xff", strings.Repeat("\xff", 5), strings.Repeat("\xfe", 6), "k"+strings.Repeat("\xc0", 8))
 }
 
 type genCfg struct {
 	depth     int
 	plain     bool // only plain names, no duplicate-ish names, canonical numbers
+	dups      bool // repeated member names allowed (history streams: values are unspecified, purity is not)
 	nullW     int  // weight of null among atoms (out of 10)
 	maxMember int
 }
@@ -164,7 +167,7 @@ func genObj(r *rng, c genCfg, depth int) *jv {
 				dup = true
 			}
 		}
-		if dup {
+		if dup && !(c.dups && r.chance(1, 2)) {
 			continue
 		}
 		v.keys = append(v.keys, name)
